@@ -40,6 +40,8 @@ def run(ctx):
     ctx.coq_props()
     from ..skel import check_skeleton_table
     check_skeleton_table(ctx)
+    from ..loops import loops_correspondence
+    loops_correspondence(ctx)
     entries, cases, outs = collect(ctx, "c01")
     bcases, bmeta, tcases, tmeta, cscases, csmeta = [], [], [], [], [], []
     for case, out in zip(cases, outs):
